@@ -79,7 +79,10 @@ def path_worker(analysis: Analysis, spec) -> dict:
         reconnects = [i for i, e in enumerate(s.events) if e.kind == "call" and e.name == "?callable" and isinstance(e.recv, V) and "conn_lost_callback" in repr(e.recv.key())]
         caught = [i for i, e in enumerate(s.events) if e.kind == "catch" and e.func == qual]
         clears = [i for i, e in enumerate(s.events) if e.kind == "store" and e.name == "protocol"]
-        rows.append({"kind": kind, "exc": f"{v.cls.__name__} at {v.site}: {v.what}" if kind == "raise" else None, "loads": loads, "writes": writes, "closes": closes, "reconnects": reconnects, "caught": caught, "clears": clears, "witness": describe_path(out, 20)})
+        # stores into the protocol object itself: its transport and its reconnect callback belong to the connection
+        # hooks (reader thread) and the constructor
+        proto_stores = sorted({e.name for e in s.events if e.kind == "store" and e.name in ("transport", "conn_lost_callback") and isinstance(e.recv, V) and "protocol" in repr(e.recv.key())})
+        rows.append({"proto_stores": proto_stores, "kind": kind, "exc": f"{v.cls.__name__} at {v.site}: {v.what}" if kind == "raise" else None, "loads": loads, "writes": writes, "closes": closes, "reconnects": reconnects, "caught": caught, "clears": clears, "witness": describe_path(out, 20)})
     return {"qual": qual, "flavour": flavour, "rows": rows}
 
 
@@ -222,6 +225,8 @@ def send_discipline(analysis: Analysis, res: RuleResult):
             if r["kind"] == "raise":
                 res.add("C16-R3", f"{q} / nothing escapes into the pump", False, "mysensors/transport.py", r["exc"], r["witness"], context=summ["flavour"])
                 continue
+            ps = r.get("proto_stores") or []
+            res.add("C16-R2", f"{q} / does not write the protocol object's transport or reconnect callback", not ps, "mysensors/transport.py", "only the connection hooks and the constructor write them" if not ps else f"{q} stores into protocol.{ps[0]}: the reader thread's connection_lost (which reads protocol.transport and calls the callback) or a concurrent send's error handler then finds None - AttributeError / TypeError instead of the lost callback and the reconnect", r["witness"] if ps else None, context=summ["flavour"])
             if racy:
                 for attr in RACY:
                     ok = r["loads"][attr] <= 1
